@@ -16,6 +16,17 @@
       -- on every accepted build of a collision-free clean input that fuel is enough, i.e. the
       model's "hierarchy fuel exhausted" outcome (which stands for unbounded recursion of
       dfs_hierarchy in the real code) is unreachable in [write_all].
+    - the BACK END (NoPanicBase.v, NoPanicNames.v, NoPanicRank.v, NoPanicEmit.v):
+      [C12_emitter_never_panics] -- for every accepted build of an input whose declared names are
+      identifiers ([names_fine], decidable, reads only the input state: item, field, function,
+      parameter, variant and extern-value names; raw names [r#x] for items/functions excluded),
+      [write_all] does not panic: every [format_ident!] site gets an identifier (the generated
+      names [vftable], [_vfunc_k], [_field_hex], [<T>Vftable], [_<T>_size_check], [<base>_<fn>] are
+      PROVED to be identifiers), the hierarchy walk has enough fuel, every extern value has its
+      type; [C12_model_pipeline_total]: front half + back end end in accepted-with-files / error
+      value / no-progress error, never a panic, out of fuel or deferral;
+      [C12_raw_type_name_panics_in_the_model]: the hypothesis is needed -- [pub type r#type] is
+      accepted and the emitter panics (finding F6f, on the model as on the real code).
     What the model cannot exhibit -- the lexer (proc_macro2), syn's recursion, allocation, wall-clock
     time, panics inside format_ident!/prettyplease -- is decided by the monitor only: every generated
     input (token soup, mutated valid files, boundary integers in every numeric position, deep nesting,
@@ -26,6 +37,8 @@ From PyxisModel Require Import Base Grammar SemTypes Registry Sem SemLemmas Tota
 Import ListNotations.
 
 From PyxisModel Require EmitLocal HierarchyFuel.
+
+From PyxisModel Require NoPanicBase NoPanicNames NoPanicRank NoPanicEmit.
 
 Theorem C12_loop_terminates : forall order st,
   (forall l, List.length (order l) = List.length l) -> sem_build order st <> BFuel.
@@ -101,3 +114,39 @@ Theorem C12_hierarchy_fuel_suffices :
       (Emit.dfs_hierarchy (S (Datatypes.length (reg_types (st_reg t)))) (st_reg t) td fields).
 Proof. exact HierarchyFuel.hierarchy_fuel_enough. Qed.
 Print Assumptions C12_hierarchy_fuel_suffices.
+
+Theorem C12_emitter_never_panics :
+  forall (order : schedule) (ptr : N) (mods : list (path * gmodule)) (st0 st : sstate),
+    WholeBuild.input_state ptr mods = Ok st0 ->
+    NoPanicNames.names_fine st0 = true ->
+    pyxis_resolve order ptr mods = BOk st -> forall m : string, Emit.write_all st <> Panic m.
+Proof. exact NoPanicEmit.write_all_no_panic. Qed.
+Print Assumptions C12_emitter_never_panics.
+
+Theorem C12_model_pipeline_total :
+  forall (order : list path -> list path) (ptr : N) (mods : list (path * gmodule)),
+    (forall l : list path, Permutation.Permutation (order l) l) ->
+    (forall st0 : sstate, WholeBuild.input_state ptr mods = Ok st0 -> NoPanicNames.names_fine st0 = true) ->
+    match NoPanicEmit.model_pipeline order ptr mods with
+    | inl (BErr _) | inl (BNoProgress _) | inr (Ok _) | inr (Err _) => True
+    | _ => False
+    end.
+Proof. exact NoPanicEmit.model_pipeline_total_perm. Qed.
+Print Assumptions C12_model_pipeline_total.
+
+Theorem C12_raw_type_name_panics_in_the_model :
+  exists st0 st : sstate,
+      WholeBuild.input_state 4 NoPanicEmit.raw_mods = Ok st0 /\
+      WholeBuild.collision_freeb (st_reg st0) = true /\
+      pyxis_resolve (hook_schedule []) 4 NoPanicEmit.raw_mods = BOk st /\
+      NoPanicNames.names_fine st0 = false /\ Emit.write_all st = Panic "invalid identifier".
+Proof. exact NoPanicEmit.raw_type_name_panics. Qed.
+Print Assumptions C12_raw_type_name_panics_in_the_model.
+
+Theorem C12_extern_values_typed :
+  forall (order : schedule) (ptr : N) (mods : list (path * gmodule)) (st : sstate)
+      (km : path * smodule) (ev : sextern),
+    pyxis_resolve order ptr mods = BOk st ->
+    In km (st_modules st) -> In ev (m_extern_values (snd km)) -> ev_type ev <> None.
+Proof. exact NoPanicEmit.extern_values_typed. Qed.
+Print Assumptions C12_extern_values_typed.
